@@ -63,19 +63,37 @@ class Remote:
 class Repo:
     """commits {cid: Commit}; branches {"origin/release/1.0": cid}; tags {tagname: cid}"""
 
-    def __init__(self, name, commits, branches, tags):
+    def __init__(self, name, commits, branches, tags, remote='origin', decoys=None):
+        """branches are always NAMED "origin/..." here (the oracles use these names); with remote='upstream' the
+        repository presents them as branches of the remote 'upstream' and `decoys` ({"origin/master": cid}) as the
+        branches of an unrelated remote 'origin'"""
         self.name = name
         self.git_dir = "/mock/" + name
         self.commits = commits
         self.by_hex = {c.hexsha: c for c in commits.values()}
+        self.remote = remote
+        self.decoys = dict(decoys or {})
         self.refs = {}
-        for b, cid in branches.items():
-            self.refs["refs/remotes/" + b] = commits[cid]
-        for t, cid in tags.items():
-            self.refs["refs/tags/" + t] = commits[cid]
         self.tags = dict(tags)
         self.branches = dict(branches)
-        self.remotes = {'origin': Remote([Ref(b, commits[cid]) for b, cid in sorted(branches.items())])}
+        for t, cid in tags.items():
+            self.refs["refs/tags/" + t] = commits[cid]
+        self._publish_branches()
+
+    def _real(self, b):
+        return self.remote + b[len("origin"):]
+
+    def _publish_branches(self):
+        for k in [k for k in self.refs if k.startswith("refs/remotes/")]:
+            del self.refs[k]
+        for b, cid in self.branches.items():
+            self.refs["refs/remotes/" + self._real(b)] = self.commits[cid]
+        self.remotes = {self.remote: Remote([Ref(self._real(b), self.commits[cid])
+                                             for b, cid in sorted(self.branches.items())])}
+        if self.remote != 'origin':
+            for b, cid in self.decoys.items():
+                self.refs["refs/remotes/" + b] = self.commits[cid]
+            self.remotes['origin'] = Remote([Ref(b, self.commits[cid]) for b, cid in sorted(self.decoys.items())])
 
     def add_tag(self, name, cid):
         """a tag that appears later (as after a fetch)"""
@@ -89,8 +107,7 @@ class Repo:
         self.by_hex[c.hexsha] = c
         if branch is not None:
             self.branches[branch] = cid
-            self.refs["refs/remotes/" + branch] = c
-            self.remotes = {'origin': Remote([Ref(b, self.commits[x]) for b, x in sorted(self.branches.items())])}
+            self._publish_branches()
         return c
 
     def commit(self, hexsha):
@@ -114,36 +131,84 @@ class TRepo(ProjectRepo):
 
 class DiskRefsRepo(GitRepo):
     """GitRepo that reads its refs from a real .git directory (GitRepo.iter_refs, the production code) while
-    the commit objects come from a mock repository"""
+    the commit objects come from a mock repository.  Loose ref files are resolved the way GitPython resolves
+    them: the file's value names a commit, or a tag object that is peeled to the tagged commit"""
 
     def __init__(self, mock_repo, git_dir):
         # (git.Repo's constructor is not called: there is no object database)
         self.__dict__['git_dir'] = git_dir
         self.__dict__['_mock'] = mock_repo
+        self.__dict__['_tag_objects'] = {}     # hexsha of a tag object -> hexsha of the tagged commit
+        self.__dict__['loose_lookups'] = 0
 
     remotes = property(lambda self: self._mock.remotes)
 
     def commit(self, hexsha):
         return self._mock.commit(hexsha)
 
+    def get_ref_commit(self, ref_name):
+        import os
+        with open(os.path.join(self.git_dir, ref_name)) as f:
+            value = f.read().strip()
+        self.__dict__['loose_lookups'] += 1
+        return self._mock.commit(self._tag_objects.get(value, value))
 
-def write_packed_refs(repo, git_dir, rng):
+
+def write_packed_refs(repo, git_dir, rng, loose=0.0, disk_repo=None):
     """the state of .git after 'git pack-refs --all'; about half of the tags are annotated tags (the ref names a
-    tag object, the tagged commit follows in a '^' line).  Returns the number of annotated tags."""
+    tag object, the tagged commit follows in a '^' line).  With loose > 0 that share of the refs changed after
+    the packing (a fetch): they are loose files under refs/, and half of those still have a - stale - line in
+    packed-refs, which git ignores.  Returns the number of annotated tags, or with loose > 0
+    (annotated, loose files, stale packed lines, loose annotated tags)."""
     import os
     lines = ["# pack-refs with: peeled fully-peeled sorted "]
-    annotated = 0
+    annotated = n_loose = n_stale = n_loose_ann = 0
+    hexes = sorted(repo.by_hex)
     for ref in sorted(repo.refs):
         sha = repo.refs[ref].hexsha
-        if ref.startswith("refs/tags/") and rng.random() < 0.5:
+        is_ann = ref.startswith("refs/tags/") and rng.random() < 0.5
+        tagobj = sha1(("tag object " + ref).encode()).hexdigest()
+        packed_sha = sha
+        if loose and rng.random() < loose:
+            n_loose += 1
+            path = os.path.join(git_dir, ref)
+            os.makedirs(os.path.dirname(path), exist_ok=True)
+            with open(path, "w") as f:
+                f.write((tagobj if is_ann else sha) + "\n")
+            if is_ann:
+                n_loose_ann += 1
+                disk_repo._tag_objects[tagobj] = sha
+            if rng.random() < 0.5:
+                continue                      # created after the packing: no packed line at all
+            others = [h for h in hexes if h != sha]
+            if not others:
+                continue
+            n_stale += 1
+            packed_sha = rng.choice(others)   # where the ref pointed when the refs were packed
+            is_ann = is_ann and rng.random() < 0.5
+        if is_ann:
             annotated += 1
-            lines.append("%s %s" % (sha1(("tag object " + ref).encode()).hexdigest(), ref))
-            lines.append("^" + sha)
+            lines.append("%s %s" % (tagobj if packed_sha == sha else sha1(("old tag object " + ref).encode()).hexdigest(), ref))
+            lines.append("^" + packed_sha)
         else:
-            lines.append("%s %s" % (sha, ref))
+            lines.append("%s %s" % (packed_sha, ref))
     with open(os.path.join(git_dir, "packed-refs"), "w") as f:
         f.write("\n".join(lines) + "\n")
+    if loose:
+        return annotated, n_loose, n_stale, n_loose_ann
     return annotated
+
+
+def disk_refs_repo(mock_repo, git_dir, refs_seed, loose):
+    """(DiskRefsRepo over a .git directory written now for `mock_repo`, the statistics of write_packed_refs)"""
+    import os
+    import random
+    import shutil
+    shutil.rmtree(git_dir, ignore_errors=True)
+    os.makedirs(git_dir)
+    disk_repo = DiskRefsRepo(mock_repo, git_dir)
+    stats = write_packed_refs(mock_repo, git_dir, random.Random(refs_seed), loose or 1e-12, disk_repo)
+    return disk_repo, stats
 
 
 class TRepoCI(TRepo):
@@ -151,10 +216,10 @@ class TRepoCI(TRepo):
     _RE_BUILD_TAG = re.compile(r"ci-(?P<build>\d+)-(?P<branch>.*)-ok$")
 
 
-def repo_for(repo_id, repo, remote='origin'):
-    """the ProjectRepo class matching the tag format used in the mock repository"""
+def repo_for(repo_id, repo, remote=None):
+    """the ProjectRepo class matching the tag format used in the mock repository, for the remote it publishes"""
     cls = TRepoCI if any(t.startswith("ci-") for t in repo.tags) else TRepo
-    return cls(repo_id, repo, remote)
+    return cls(repo_id, repo, remote or getattr(repo, 'remote', 'origin'))
 
 
 class TRepoSaved(TRepo):
@@ -165,9 +230,22 @@ class TRepoSaved(TRepo):
         return RepoBuildsBySavedBuildNumDetector(self)
 
 
+class TRepoTwoSources(TRepo):
+    """the version moved to VERSION at some time; the old file is still looked at first and, where present, is
+    only a note for humans (reading it fails: the next location is used)"""
+    _SAVED_BUILD_NUM_SOURCES = ["version.txt", "VERSION"]
+
+
+class TRepoSavedTwoSources(TRepoSaved):
+    _SAVED_BUILD_NUM_SOURCES = ["version.txt", "VERSION"]
+
+
 def component_repo_for(repo_id, repo, remote='origin'):
     saved = not repo.tags and any(c.tree.files.get("VERSION") is not None and
                                   c.tree.files["VERSION"].data.count(b".") == 2 for c in repo.commits.values())
+    two = any("version.txt" in c.tree.files for c in repo.commits.values())
+    if two:
+        return (TRepoSavedTwoSources if saved else TRepoTwoSources)(repo_id, repo, remote)
     return (TRepoSaved if saved else TRepo)(repo_id, repo, remote)
 
 
@@ -216,7 +294,7 @@ def short_branch(b):
 
 def branch_oracle(repo):
     """-> order (ascending), {branch: {builds, anc, lower, head}}"""
-    heads = {ref.name: ref.commit for ref in repo.remotes['origin'].refs}
+    heads = {b: repo.commits[cid] for b, cid in repo.branches.items()}   # named "origin/..." whatever the remote
     order = sorted(heads, key=branch_sort_key)
     tagged = set(repo.tags.values())
     lower = set()
@@ -237,7 +315,8 @@ def describe(repo):
         "commits": [[c.intid, [p.intid for p in c.parents], c.message, c.committed_date,
                      {p: b.data.decode() for p, b in c.tree.files.items()}]
                     for c in repo.commits.values()],
-        "branches": repo.branches, "tags": repo.tags,
+        "branches": repo.branches, "tags": repo.tags, "remote": getattr(repo, 'remote', 'origin'),
+        "decoys": getattr(repo, 'decoys', {}),
     }
 
 
@@ -245,4 +324,5 @@ def rebuild(descr):
     commits = {}
     for cid, parents, msg, ts, files in descr["commits"]:
         commits[cid] = Commit(descr["name"], cid, [commits[p] for p in parents], msg, ts, files)
-    return Repo(descr["name"], commits, descr["branches"], descr["tags"])
+    return Repo(descr["name"], commits, descr["branches"], descr["tags"], descr.get("remote", "origin"),
+                descr.get("decoys"))
